@@ -855,19 +855,19 @@ var (
 )
 
 type Solver struct {
-	kind    SolverKind
-	cmd     *exec.Cmd
-	in      io.WriteCloser
-	out     *bufio.Reader
-	lines   chan string
-	Log     io.Writer
-	dead    bool
-	Queries int
-	Time    time.Duration
-	mu      sync.Mutex
-	restarts int
+	kind      SolverKind
+	cmd       *exec.Cmd
+	in        io.WriteCloser
+	out       *bufio.Reader
+	lines     chan string
+	Log       io.Writer
+	dead      bool
+	Queries   int
+	Time      time.Duration
+	mu        sync.Mutex
+	restarts  int
 	noRestart bool // portfolio solvers are one-shot: never restarted (their owner closes them concurrently)
-	closed   bool
+	closed    bool
 }
 
 // StartSolverTO starts a solver whose per-check time limit (where it must be given on the
